@@ -90,7 +90,7 @@ func (version Version) MarshalControl() (string, error) {
 
 func (v Version) StringWithoutEpoch() string {
 	result := v.Version
-	if len(v.Revision) > 0 {
+	if len(v.Revision) > 0 || strings.Contains(v.Version, "-") {
 		result += "-" + v.Revision
 	}
 	return result
